@@ -409,6 +409,53 @@ def _mutate(env, cur, meth):
     raise TypeError("no mutator %s for %s" % (meth, n))
 
 
+class _Sentinel:
+    pass
+
+
+def alias_probe(res, cur):
+    """[names of attributes that are SHARED between the derived object and its source] and whether the payload is:
+    rebinding an attribute of one object must not change the other, and growing one container must not grow the other"""
+    shared = []
+    if res is cur:
+        return shared, False
+    names = [a for a in ATTRS.get(type(res).__name__, []) if a in ATTRS.get(type(cur).__name__, [])]
+    for a, b in ((res, cur), (cur, res)):
+        for n in names:
+            if not (hasattr(a, n) and hasattr(b, n)):
+                continue
+            old_a, old_b = getattr(a, n), getattr(b, n)
+            try:
+                setattr(a, n, _Sentinel())
+            except Exception:
+                continue
+            if getattr(b, n) is not old_b and n not in shared:
+                shared.append(n)
+            setattr(a, n, old_a)
+            if getattr(b, n) is not old_b:        # shared: restore the other side too
+                setattr(b, n, old_b)
+    pay = False
+    for a, b in ((res, cur), (cur, res)):
+        before = len(b)
+        tok = _Sentinel()
+        try:
+            if isinstance(a, set):
+                set.add(a, tok)
+                pay = pay or len(b) != before
+                set.discard(a, tok)
+            elif isinstance(a, list):
+                list.append(a, tok)
+                pay = pay or len(b) != before
+                list.pop(a)
+            elif isinstance(a, dict):
+                dict.__setitem__(a, tok, 1)
+                pay = pay or len(b) != before
+                dict.__delitem__(a, tok)
+        except Exception:
+            pass
+    return shared, pay
+
+
 def run_case(case):
     env = Env(case)
     start = case["start"]
@@ -438,6 +485,9 @@ def run_case(case):
                 else:
                     rec["kind"] = "new"
                     rec["res"] = st
+                    shared, pay = alias_probe(res, cur)
+                    if shared or pay:
+                        rec["alias"] = {"attrs": shared, "payload": pay}
                     # a new object of the class with the same attributes becomes the current object
                     if type(res).__name__ == clsname and st["attrs"] == env.state(cur, els)["attrs"]:
                         cur = res
